@@ -55,6 +55,17 @@ SuBad(t)       == {n \in QIds(t.arch) : ~Rec(t, n).su_ok
                                         \/ (n \in LayersOf(t) /\ (Len(Rec(t, n).su_w) # Ch(t.arch, n)
                                                                   \/ Len(Rec(t, n).th_w) # Ch(t.arch, n)))}
 HistBad(t)     == t.hist_err # ""
+(* Finding F70: copy.deepcopy of an MPS model raises RuntimeError ("Only Tensors created explicitly by the user support the   *)
+(* deepcopy protocol") when the theta_alpha buffers hold the result of a forward pass that ran with autograd enabled.          *)
+ThetaProducers == {"fwd_g", "sgd_net", "sgd_all", "fwd_n", "fwd_eval", "fwd_hard", "fwd_ghard", "export!"}
+ForkAfterGrad(t) ==
+    /\ t.hist_err_act = "fork" /\ t.hist_err_type = "RuntimeError" /\ t.hist_err_pos \in DOMAIN t.hist
+    /\ LET P == {j \in 1..(t.hist_err_pos - 1) : t.hist[j] \in ThetaProducers} IN
+       P # {} /\ t.hist[CHOOSE j \in P : \A k \in P : k <= j] \in {"fwd_g", "sgd_net", "sgd_all"}
+HistVerdict(t, pid) ==
+    IF ForkAfterGrad(t)
+    THEN "known:F70:copy.deepcopy of the model raises after a forward pass with autograd enabled (call " \o Str(t.hist_err_pos) \o " of the history)"
+    ELSE pid \o ".call: a public call raised: " \o t.hist_err
 
 (* --------------------------- C02 --------------------------------------- *)
 SameTriple(r, p) ==       \* p \in {"ex", "am"} compared with summary()
@@ -92,7 +103,7 @@ Check02(t) ==
     IF ~t.build_ok THEN "C02.convert: MPS(...) raised on an architecture of the grammar: " \o t.build_err
     ELSE IF MissingRecs(t) # {} THEN "C02.convert node " \o Str(Least(MissingRecs(t))) \o ": no searchable module was created for this quantisation point"
     ELSE IF ExtraRecs(t) # {} THEN "C02.convert: a searchable module was created that is no quantisation point of the dataflow"
-    ELSE IF HistBad(t) THEN "C02.call: a public call raised: " \o t.hist_err
+    ELSE IF HistBad(t) THEN HistVerdict(t, "C02")
     ELSE IF ~t.export_done THEN "trace: scenario without export"
     ELSE IF ~t.export_ok \/ t.exports = <<>> \/ \E i \in DOMAIN t.exports : ~t.exports[i].ok
          THEN "C02.export: export() raised " \o t.export_err
@@ -253,7 +264,7 @@ CheckFull(t) ==
 
 Check05(t) ==
     IF ~t.build_ok THEN "C05.convert: MPS(...) raised on an architecture of the grammar: " \o t.build_err
-    ELSE IF HistBad(t) THEN "C05.call: a public call raised: " \o t.hist_err
+    ELSE IF HistBad(t) THEN HistVerdict(t, "C05")
     ELSE IF t.full /\ HasFixed(t.arch) THEN CheckFull(t)
     ELSE IF MissingRecs(t) # {} THEN "C05.convert node " \o Str(Least(MissingRecs(t))) \o ": no searchable module was created for this quantisation point"
     ELSE IF ExtraRecs(t) # {} THEN "C05.convert: a searchable module was created that is no quantisation point of the dataflow"
